@@ -342,6 +342,37 @@ def registration_check(prop):
         except ExtractError as e:
             res['undecided'].append('macro expansion: %s' % e)
             return res
+        # the crate-level convenience functions users actually call delegate to the same-named method of the global registry
+        DELEG = {'invalidate_by_tag': ['C12'], 'invalidate_by_event': ['C12'], 'invalidate_by_dependency': ['C12'], 'invalidate_cache': ['C12'],
+                 'invalidate_with': ['C13'], 'invalidate_all_with': ['C13']}
+        if any(prop in v for v in DELEG.values()):
+            from . import rustsrc, gen as G
+            try:
+                stripped = rustsrc.strip_comments(open(os.path.join(G.REPO, 'cachelito-core', 'src', 'invalidation.rs')).read())
+            except OSError as e:
+                res['undecided'].append('invalidation.rs: %s' % e)
+                stripped = None
+            for fname, props in sorted(DELEG.items()):
+                if stripped is None or prop not in props:
+                    continue
+                oname = 'delegation/%s::calls_the_same_named_registry_method' % fname
+                res['obligations'][oname] = 'structural'
+                found = None
+                for m in re.finditer(r'(?m)^pub\s+fn\s+%s\b' % fname, stripped):
+                    f = rustsrc.find_fn(stripped, fname, m.start(), len(stripped))
+                    sig = stripped[f['sig_start']:f['body_open']]
+                    po = sig.index('(')
+                    params = re.findall(r'(\w+)\s*:', sig[po:rustsrc.match_close(sig, po)])
+                    body = re.sub(r'\s+', '', stripped[f['body_open'] + 1:f['body_close']])
+                    found = (params, body)
+                    break
+                if found is None:
+                    res['violations'].append(dict(obligation=oname, message='crate-level fn %s not found' % fname, site='cachelito-core/src/invalidation.rs', rendered=''))
+                    continue
+                params, body = found
+                want = 'InvalidationRegistry::global().%s(%s)' % (fname, ','.join(params))
+                if body != want:
+                    res['violations'].append(dict(obligation=oname, message='body is `%s`, expected `%s`' % (body[:120], want), site='cachelito-core/src/invalidation.rs fn %s' % fname, rendered=body))
         for name, attrs in sorted(attrs_all.items()):
             try:
                 info = W.extract(exp, name, attrs)
@@ -622,7 +653,7 @@ def main(argv):
             w = witness_search(prop, bunits, tier, seed)
             bounded = w
             if w.get('history'):
-                reported.append(dict(obligation=sorted(unreached)[0] + ' (undecided by the verifier: unsupported construct; violation shown by the bounded search)',
+                reported.append(dict(obligation=sorted(unreached)[0] + ' (undecided by the verifier: outside its reach or without a contract of its own; violation shown by the bounded search)',
                                      message=w['line'], site=None, rendered=w['line']))
                 failed_names.add(sorted(unreached)[0])
             elif w.get('none'):
